@@ -592,6 +592,14 @@ func ruleT3(c *Ctx) {
 				bi = 4
 			case "ParseFloat":
 				bi = 1
+			case "ParseInt", "FormatInt":
+				// integers are written and read in base 10 (base 0 reads 010 as octal, 0x10 as hex, 1_0 as ten)
+				if len(cc.Args) > 1 {
+					n++
+					k, isC := constInt(cc.Args[1])
+					c.check(isC && k == 10, fmt.Sprintf("%s strconv.%s #%d uses base 10", funcName(fn), cc.StaticCallee().Name(), n), in.Pos(), "base 10", "strconv."+cc.StaticCallee().Name()+" at "+c.pos(in.Pos())+" is not given base 10: the text of an int64 literal is read in another base (or with automatic base detection), so \"010\"^^type:int64 is not ten")
+				}
+				return
 			}
 			if bi < 0 || bi >= len(cc.Args) {
 				return
@@ -1038,5 +1046,160 @@ func ruleIE1(c *Ctx) {
 	}
 	if n < 4 {
 		c.undecided("IsEmpty methods", token.NoPos, "only %d found", n)
+	}
+}
+
+// ---- N2 what is validated is what is stored ------------------------------------------------------------------------------------------------------
+
+func ruleN2(c *Ctx) {
+	c.Rule("N2", "node.NewID and node.NewType return the text they checked: the string converted into the returned ID/Type is the very value the emptiness and character tests were applied to (normalising — trimming, folding — after the checks can produce an empty or malformed value that never saw them)", 2)
+	for _, name := range []string{"NewID", "NewType"} {
+		fn := c.mustFunc("triple/node", name)
+		if fn == nil {
+			continue
+		}
+		key := "node." + name + " stores the text it validated"
+		// the operand of the emptiness test
+		tested := ""
+		allInstrs(fn, func(in ssa.Instruction) {
+			if bo, ok := in.(*ssa.BinOp); ok && (bo.Op == token.EQL || bo.Op == token.NEQ) {
+				if k, ok := bo.Y.(*ssa.Const); ok && k.Value != nil && k.Value.Kind() == constant.String && constant.StringVal(k.Value) == "" {
+					tested = c.term(bo.X)
+				}
+			}
+		})
+		if tested == "" {
+			c.bad(key, fn.Pos(), "node.%s no longer tests its text for emptiness", name)
+			continue
+		}
+		bad := ""
+		allInstrs(fn, func(in ssa.Instruction) {
+			// the conversion string -> ID/Type that feeds the result
+			cv, ok := in.(*ssa.ChangeType)
+			if !ok {
+				if cv2, ok2 := in.(*ssa.Convert); ok2 && types.Identical(cv2.X.Type().Underlying(), types.Typ[types.String]) && namedOf(cv2.Type()) != nil {
+					if t := c.term(cv2.X); t != tested {
+						bad = truncate(t, 60)
+					}
+				}
+				return
+			}
+			if types.Identical(cv.X.Type().Underlying(), types.Typ[types.String]) && namedOf(cv.Type()) != nil {
+				if t := c.term(cv.X); t != tested {
+					bad = truncate(t, 60)
+				}
+			}
+		})
+		c.check(bad == "", key, fn.Pos(), "the converted text is the tested one ("+tested+")", "node."+name+" validates "+tested+" but stores "+bad+": the stored text never went through the checks (a blank id becomes an empty one; the node prints to text that does not parse back)")
+	}
+}
+
+// ---- S6c every copy of the lookup options carries the same fields ---------------------------------------------------------------------------------
+
+func ruleS6c(c *Ctx) {
+	c.Rule("S6c", "the planner's private copies of the lookup options agree on what they copy: every storage.LookupOptions value constructed in bql/planner from another options value sets the same set of fields (a copy that lists fewer fields silently drops, for instance, the FILTER installed for the clause)", 1)
+	lo := c.mustNamed("storage", "LookupOptions")
+	if lo == nil {
+		return
+	}
+	type cp struct {
+		fn     *ssa.Function
+		pos    token.Pos
+		fields []string
+	}
+	var copies []cp
+	for _, fn := range c.srcFuncs("bql/planner") {
+		allInstrs(fn, func(in ssa.Instruction) {
+			al, ok := in.(*ssa.Alloc)
+			if !ok || namedOf(derefType(al.Type())) != lo || al.Referrers() == nil {
+				return
+			}
+			set := map[string]bool{}
+			fromOther := false
+			for _, r := range *al.Referrers() {
+				fa, ok := r.(*ssa.FieldAddr)
+				if !ok || fa.Referrers() == nil {
+					continue
+				}
+				for _, r2 := range *fa.Referrers() {
+					if st, ok := r2.(*ssa.Store); ok && st.Addr == ssa.Value(fa) && st.Block() == al.Block() {
+						set[fieldName(fa.X.Type(), fa.Field)] = true
+						if strings.Contains(c.term(st.Val), "param:") {
+							fromOther = true
+						}
+					}
+				}
+			}
+			if fromOther {
+				copies = append(copies, cp{fn, in.Pos(), keys(set)})
+			}
+		})
+	}
+	if len(copies) == 0 {
+		c.undecided("copies of LookupOptions in the planner", token.NoPos, "none found; updateTimeBounds was confirmed by reading")
+		return
+	}
+	ref := strings.Join(copies[0].fields, ",")
+	for _, x := range copies {
+		if len(x.fields) > len(strings.Split(ref, ",")) {
+			ref = strings.Join(x.fields, ",")
+		}
+	}
+	for i, x := range copies {
+		got := strings.Join(x.fields, ",")
+		c.check(got == ref, fmt.Sprintf("%s options copy #%d carries every field", funcName(x.fn), i+1), x.pos, "fields "+got, "the options copy made at "+c.pos(x.pos)+" sets only ["+got+"] while another copy in the planner sets ["+ref+"]: what the shorter list leaves out (e.g. the clause's FILTER) is silently dropped for this lookup")
+	}
+}
+
+// ---- R1 nothing branches on the number of processors ----------------------------------------------------------------------------------------------
+
+func ruleR1(c *Ctx, rels ...string) {
+	c.Rule("R1", "the engine does the same thing on one processor as on sixteen: the value of runtime.GOMAXPROCS/NumCPU is used only to size channels, semaphores and worker pools — it never reaches the condition of a branch, so no code path exists for one processor count only", 0)
+	n := 0
+	for _, fn := range c.srcFuncs(rels...) {
+		allInstrs(fn, func(in ssa.Instruction) {
+			call, ok := in.(*ssa.Call)
+			if !ok || !(isCallTo(&call.Call, "runtime", "GOMAXPROCS") || isCallTo(&call.Call, "runtime", "NumCPU")) {
+				return
+			}
+			n++
+			bad := ""
+			seen := map[ssa.Value]bool{}
+			var follow func(v ssa.Value, d int)
+			follow = func(v ssa.Value, d int) {
+				if seen[v] || d > 6 || v.Referrers() == nil {
+					return
+				}
+				seen[v] = true
+				for _, r := range *v.Referrers() {
+					switch x := r.(type) {
+					case *ssa.If:
+						bad = c.pos(x.Pos())
+						if !x.Pos().IsValid() {
+							bad = c.pos(v.Pos())
+						}
+					case *ssa.BinOp:
+						follow(x, d+1)
+					case *ssa.Convert:
+						follow(x, d+1)
+					case *ssa.Phi:
+						follow(x, d+1)
+					case *ssa.Store:
+						if al, ok := x.Addr.(*ssa.Alloc); ok && x.Val == v {
+							for _, lr := range *al.Referrers() {
+								if u, ok := lr.(*ssa.UnOp); ok && u.Op == token.MUL {
+									follow(u, d+1)
+								}
+							}
+						}
+					}
+				}
+			}
+			follow(call, 0)
+			c.check(bad == "", fmt.Sprintf("%s uses the processor count for sizing only (#%d)", funcName(fn), n), in.Pos(), "never compared or branched on", "the number of processors read at "+c.pos(in.Pos())+" decides a branch at "+bad+": there is a code path that exists for some processor counts only, so results can depend on GOMAXPROCS")
+		})
+	}
+	if n == 0 {
+		c.trivial("processor count", token.NoPos, "not read in %v", rels)
 	}
 }
